@@ -183,6 +183,14 @@ Proof.
     inversion H; subst. apply (IH st1 st' b2 E).
 Qed.
 
+Lemma vclose_R tol x y :
+  @vclose R NumR tol x y = true -> Rabs (x - y) <= tol * (1 + Rabs y).
+Proof.
+  unfold vclose. intros H. apply nleb_Rle' in H.
+  change (@nabs R NumR (x - y) <= tol * (1 + @nabs R NumR y)) in H.
+  rewrite (NumR.nabs_R (x - y)), (NumR.nabs_R y) in H. exact H.
+Qed.
+
 Definition all_true4 : list bool := [true; true; true; true].
 
 Section Trace.
@@ -210,8 +218,8 @@ Proof.
   unfold all_true4 in H. injection H as Hb Hs Hv. exists st. split; [|split].
   - apply run_cmp_run in E. unfold opsR in E. rewrite map_map in E. simpl in E. exact E.
   - apply beqlist_eq. exact Hs.
-  - intros s Hs'. rewrite forallbn_spec in Hv. specialize (Hv s Hs'). unfold vclose in Hv.
-    apply nleb_Rle' in Hv. rewrite !nabs_R in Hv. numR. exact Hv.
+  - intros s Hs'. rewrite forallbn_spec in Hv. specialize (Hv s Hs').
+    apply vclose_R in Hv. exact Hv.
 Qed.
 
 End Trace.
